@@ -259,6 +259,26 @@ theorem mirror_encode_eq_ref {K : Kernels} (hK : KernelsOK K)
       | none => encode K inp = .error .writer :=
   encode_eq_ref_full hK inp ec hec hcs hsj hrc he
 
+/-- `mirror_encode_eq_refEncode` — the sharpest form: the mirror of `Encoder_encode` IS the reference encoder
+    `QRRef.refEncode` (written from ISO/IEC 18004) applied to the mode of the reference mode analysis, the mode's byte
+    representation of the content (`modeBytes`: the content, the bytes of the encoding in force, the Shift_JIS bytes)
+    and the configuration the hints amount to (`refConfig`): a WriterException exactly when the reference refuses
+    (no encoder result, not encodable in the mode, version out of range or too small, nothing fits), otherwise the
+    same mode, version, mask pattern, final codeword sequence and matrix — every module.  Same codec parameters. -/
+theorem mirror_encode_eq_refEncode {K : Kernels} (hK : KernelsOK K)
+    (inp : EncInput) (ec : EC) (hec : ecOfInt inp.ecLevel = some ec)
+    (hcs : ∀ cs, inp.charset = some cs → cs.known = true)
+    (hsj : ∀ bs, inp.sjis = some bs → ∀ b ∈ bs, b < 256)
+    (hrc : ∀ bs, inp.sjis = some bs → modeOf inp = .kanji → inp.runeCount = bs.length / 2)
+    (he : ∀ e, eciOf inp (modeOf inp) = some e → e < 128) :
+    match (modeBytes inp (modeOf inp)).bind (fun bytes => refEncode (modeOf inp) bytes (refConfig inp ec (modeOf inp))) with
+    | none => encode K inp = .error .writer
+    | some s =>
+      ∃ t, encode K inp = .ok t ∧ t.mode = s.mode ∧ t.version = s.version ∧ t.maskPattern = ((s.mask : Nat) : Int) ∧
+        t.finalBits = bitsOfBytes s.codewords ∧ t.matrix = refByteMatrix s.version ec s.mask s.codewords ∧
+        t.matrix.bytes.map (fun r => r.map (· == 1)) = s.matrix :=
+  encode_eq_refEncode hK inp ec hec hcs hsj hrc he
+
 /-- the same for a mode and segment given explicitly (any `Segment`, e.g. one of `mirror_segment_kinds`) -/
 theorem mirror_encode_eq_ref_segment {K : Kernels} (hK : KernelsOK K)
     (inp : EncInput) (ec : EC) (hec : ecOfInt inp.ecLevel = some ec)
